@@ -63,10 +63,18 @@ AnyNode(env, T, v, dummy) ==
 
 \* types whose PER encoding is the empty bit string (the implementation takes a group whose encoding
 \* is an all-zero preamble and nothing else for an absent group)
-ZeroWidth(t) ==
-  \/ t.k = "NULL"
-  \/ t.k = "ENUM" /\ ~t.ext /\ Len(t.root) = 1
-  \/ t.k = "INT" /\ t.con.f = "R" /\ ~t.con.ext /\ ~t.con.lbinf /\ ~t.con.ubinf /\ t.con.lb = t.con.ub
+RECURSIVE ZeroWidthF(_, _, _)
+ZeroWidthF(env, t, fuel) ==
+  CASE t.k = "REF" -> fuel > 0 /\ ZeroWidthF(env, env.types[t.name], fuel - 1)
+    [] t.k = "NULL" -> TRUE
+    [] t.k = "ENUM" -> ~t.ext /\ ~env.extimp /\ Len(t.root) = 1
+    [] t.k = "INT" -> t.con.f = "R" /\ ~t.con.ext /\ ~t.con.lbinf /\ ~t.con.ubinf /\ t.con.lb = t.con.ub
+    [] t.k \in {"OCTS", "BITS", "STR"} -> t.sz.f = "R" /\ ~t.sz.ext /\ ~t.sz.ubinf /\ t.sz.ub = 0
+    [] t.k \in {"SEQ", "SET"} ->
+         /\ ~t.ext /\ ~env.extimp
+         /\ \A j \in 1..Len(t.root) : t.root[j].q = "M" /\ ZeroWidthF(env, t.root[j].t, fuel)
+    [] OTHER -> FALSE
+ZeroWidth(env, t) == ZeroWidthF(env, t, 3)
 
 RtClassHolds(name, env, T, v, codec) ==
   CASE name = "OidArc2Ge40" -> AnyLeaf(env, T, v, LAMBDA t, x : t.k = "OID" /\ x[1] = 2 /\ x[2] >= 40)
@@ -89,7 +97,7 @@ RtClassHolds(name, env, T, v, codec) ==
                     /\ Sq.adds[a].g
                     /\ \E h \in 1..Len(Sq.adds[a].ms) : x[Sq.adds[a].ms[h].n].p
                     /\ \A h \in 1..Len(Sq.adds[a].ms) :
-                          x[Sq.adds[a].ms[h].n].p => ZeroWidth(Base(env, Sq.adds[a].ms[h].t))
+                          x[Sq.adds[a].ms[h].n].p => ZeroWidth(env, Sq.adds[a].ms[h].t)
     [] name = "OerAdditionGroup" ->
          /\ codec = "oer"
          /\ LET ns == SeqNodes(env, T, v) IN
